@@ -383,6 +383,11 @@ def directed_cases():
     return [
         {'kind': 'cart-regular', 'cache': True, 'dims': [5, 5], 'delta': 0.25, 'D': 1.0, 'reqs': reqs},
         {'kind': 'cart-regular', 'cache': False, 'dims': [3, 4], 'delta': 0.25, 'D': 0.75, 'reqs': reqs_mixed},
+        # round 5: a regular pupil grid with 12 pixels *exactly* on the rim 2r = D ((+-3,+-4)/8, (+-4,+-3)/8, (+-5,0)/8, (0,+-5)/8; hypot exact):
+        # the mask `(2 r) < D` is strict, the rim is outside (model: rim_is_outside, rim_cartesian); without cut-off the value there is
+        # the azimuthal factor alone because R_n^m(1) = 1 (mode_on_rim)
+        {'kind': 'cart-regular', 'cache': True, 'dims': [11, 11], 'delta': 0.125, 'D': 1.25,
+         'reqs': [[n, m, (n + m) % 4 == 0] for n, m in modes if n in (0, 1, 2, 3, 4, 7, 12, 19, 20)]},
         {'kind': 'cart-points', 'cache': True, 'x': [0.0, 0.375, -0.3125, 0.5, 0.0], 'y': [0.0, 0.5, 0.75, 0.0, -0.25], 'D': 1.25, 'reqs': reqs_mixed},
         {'kind': 'polar-points', 'cache': True, 'D': 1.5, 'r': [0.0, 0.75, 0.125, 0.5, 1.0, 2.0 ** -20], 'ang': angs + [[4, 3, 5]], 'reqs': reqs},
         {'kind': 'polar-separated', 'cache': True, 'D': 1.0, 'R': [0.0, 0.125, 0.25, 0.4375, 0.5, 0.625], 'ang': angs, 'reqs': reqs_mixed},
@@ -435,6 +440,14 @@ def pts_line(pts, case=None):
         return 'C13 pts polar %s %s %s' % (rat_list(pts[1]), rat_list([Fraction(c, d) for c, s, d in pts[2]]),
                                            rat_list([Fraction(s, d) for c, s, d in pts[2]]))
     return 'C13 pts cart %s %s' % (rat_list(pts[1]), rat_list(pts[2]))
+
+
+def rim_mask(pts, D):
+    """points exactly on the rim 2r = D, decided on exact rationals"""
+    Df = Fraction(D)
+    if pts[0] == 'polar':
+        return np.array([2 * Fraction(r) == Df for r in pts[1]], dtype=bool)
+    return np.array([4 * (Fraction(x) ** 2 + Fraction(y) ** 2) == Df * Df for x, y in zip(pts[1], pts[2])], dtype=bool)
 
 
 def cut_info(pts, D):
@@ -550,7 +563,7 @@ def real_values(hz, grid, D, reqs, cache, trace=None):
     return res
 
 
-def judge(case, real, fresh, refs, amb, npts):
+def judge(case, real, fresh, refs, amb, npts, rim=None):
     """The property clauses on the observations of the real code. Returns [(key, what)]."""
     bad = []
     kind = case['kind']
@@ -571,6 +584,12 @@ def judge(case, real, fresh, refs, amb, npts):
         elif (err > TOL * scale).any():
             j = int(np.argmax(err))
             bad.append(('value ' + kind, '%s = %.12g at point %d, definition gives %.12g' % (tag, z[j], j, refd[j]), qi))
+        if rim is not None and rim.any() and cut:
+            # the aperture is the open disc: with the cut-off a point exactly on the rim carries exactly 0 (no tolerance)
+            nz = rim & ~amb & ~(z == 0.0)
+            if nz.any():
+                j = int(np.nonzero(nz)[0][0])
+                bad.append(('rim-not-outside ' + kind, '%s = %r at point %d, which lies exactly on the rim 2r = D (mask is `(2 r) < D`: 0 expected)' % (tag, z[j], j), qi))
         if case['cache'] and not isinstance(zf, str) and zf.shape == z.shape:
             d = ~((z == zf) | (np.isnan(z) & np.isnan(zf)))
             if d.any():
@@ -599,7 +618,7 @@ def shrink(hz, case, key, qi):
              dict(case, reqs=same + [reqs[qi]]), dict(case, reqs=reqs[:qi + 1])]
     for c in cands:
         grid, pts, real, fresh, outside, amb, refs = observe(hz, c)
-        for k, what, _ in judge(c, real, fresh, refs, amb, len(pts[1])):
+        for k, what, _ in judge(c, real, fresh, refs, amb, len(pts[1]), rim_mask(pts, c['D'])):
             if k == key:
                 return c, what
     return case, None
@@ -766,7 +785,8 @@ def check_values(ctx, hz):
         trace = [] if case['cache'] else None
         grid, pts, real, fresh, outside, amb, refs = observe(hz, case, trace)
         npts = len(pts[1])
-        bad = judge(case, real, fresh, refs, amb, npts)
+        rim = rim_mask(pts, case['D'])
+        bad = judge(case, real, fresh, refs, amb, npts, rim)
         if trace is not None:
             # the cache itself: every slot valid and never modified; a spoiled slot is turned into a failing request
             # history by asking for that mode once more, without cut-off
@@ -774,7 +794,7 @@ def check_values(ctx, hz):
                 ctx.count('cache-slot-spoiled')
                 pc = dict(case, reqs=case['reqs'] + [probe]) if probe else case
                 g2, p2, real2, fresh2, out2, amb2, refs2 = observe(hz, pc)
-                found = [(k, w, qi) for k, w, qi in judge(pc, real2, fresh2, refs2, amb2, len(p2[1])) if qi == len(pc['reqs']) - 1 or not probe]
+                found = [(k, w, qi) for k, w, qi in judge(pc, real2, fresh2, refs2, amb2, len(p2[1]), rim_mask(p2, pc['D'])) if qi == len(pc['reqs']) - 1 or not probe]
                 if found:
                     k, w, qi = found[0]
                     small, what2 = shrink(hz, pc, k, qi)
@@ -794,6 +814,9 @@ def check_values(ctx, hz):
         rr = np.array(pts[1]) if pts[0] == 'polar' else np.hypot(np.array(pts[1]), np.array(pts[2]))
         has0 = bool((rr == 0).any()); hasrim = bool((2 * rr == case['D']).any())
         ctx.count('cases-with-centre-point', int(has0)); ctx.count('cases-with-rim-point', int(hasrim))
+        ctx.count('rim-exact-points:' + case['kind'], int((rim & ~amb).sum()))
+        ctx.count('rim-exact-evaluations:cutoff', int((rim & ~amb).sum()) * sum(1 for q in case['reqs'] if q[2]))
+        ctx.count('rim-exact-evaluations:no-cutoff', int((rim & ~amb).sum()) * sum(1 for q in case['reqs'] if not q[2]))
         lines.append(pts_line(pts, case))
         base_slot = len(slots)
         if trace is not None and len(trace) == len(case['reqs']):
@@ -1754,6 +1777,117 @@ def check_spellings(ctx, hz):
         if r:
             ctx.disagree('C13 spelling', {'label': label, 'case': case, 'n': n, 'm': m, 'detail': r[1]})
 
+
+# =============================================================================================
+# Part H (round 5): beyond the table.  The theorems radial_matches_definition, radial_at_zero and radial_at_one hold for
+# EVERY radial order; the recursion of the code is run here for orders 21 ... 40 (thorough 48), always against one cache per
+# history (without a cache the code's recursion is exponential in n - |m|), in random request orders — including the histories
+# "higher |m| first, then lower |m|" that resume from cached intermediate results — at r = 0, r = 1 (the rim: value 1), r = 2^-12
+# and random dyadic radii up to 1.125.  Oracle: the factorial definition in exact integer arithmetic, the unit-circle identity
+# R_n^m(1) = 1, the centre value.  Correspondence: `C13 radial n m r` (radialEval, exact rationals).
+# =============================================================================================
+
+def exact_radial(n, m, r):
+    r = Fraction(r)
+    return sum(Fraction(c) * r ** e for e, c in def_coeffs(n, m))
+
+
+def gen_high_case(rng, nhi):
+    n = int(rng.integers(NMAX + 1, nhi + 1))
+    ms = list(range(n % 2, n + 1, 2))
+    u = rng.random()
+    if u < 0.35:
+        order = sorted(ms, reverse=True)                          # ANSI-like: |m| decreasing, every step resumes from the cache
+    elif u < 0.5:
+        order = sorted(ms)
+    else:
+        order = [ms[int(i)] for i in rng.permutation(len(ms))]
+    k = int(rng.integers(3, len(order) + 1))
+    order = order[:k]
+    if rng.random() < 0.5:
+        order.append(order[int(rng.integers(0, len(order)))])      # a repeated request (cache hit on ('rad', n, m))
+    signs = [int(m if rng.random() < 0.5 else -m) for m in order]
+    rs = [Fraction(0), Fraction(1), Fraction(1, 2 ** 12)] + [Fraction(int(rng.integers(1, 289)), 256) for _ in range(3)]
+    return {'what': 'high', 'n': n, 'ms': signs, 'r': [str(r) for r in rs], 'two_orders': bool(rng.random() < 0.3)}
+
+
+def run_high(hz, case):
+    """Returns ([(key, what, index)], values): one cache for the whole history; with `two_orders` the history is run for n and n - 2
+    interleaved against the same cache (keys of different orders must not interfere)."""
+    rs = [Fraction(r) for r in case['r']]
+    rf = np.array([float(r) for r in rs])
+    cache = {}
+    reqs = []
+    for m in case['ms']:
+        reqs.append((case['n'], m))
+        if case.get('two_orders') and abs(m) <= case['n'] - 2:
+            reqs.append((case['n'] - 2, m))
+    bad, vals = [], []
+    before = rf.tobytes()
+    with warnings.catch_warnings():
+        warnings.simplefilter('ignore')
+        for qi, (n, m) in enumerate(reqs):
+            try:
+                v = np.array(np.broadcast_to(np.asarray(hz.zernike_radial(n, m, rf, cache), dtype=float), rf.shape))
+            except Exception as e:      # noqa
+                bad.append(('high-order raises', 'zernike_radial(%d,%d,r,cache) raises %s: %s' % (n, m, type(e).__name__, e), qi))
+                vals.append(None); continue
+            vals.append(v)
+            ref = [exact_radial(n, abs(m), r) for r in rs]
+            for j, (r, x, e) in enumerate(zip(rs, v, ref)):
+                ef = to_float(e)
+                if not (abs(x - ef) <= TOL * max(1.0, abs(ef))):
+                    if r == 1:
+                        key, txt = 'unit-circle', 'R_n^m(1) = 1 for every order'
+                    elif r == 0:
+                        key, txt = 'high-order centre', 'centre value (-1)^(n/2) for m = 0, else 0'
+                    else:
+                        key, txt = 'high-order value', 'factorial definition'
+                    bad.append((key, 'zernike_radial(%d,%d,%s) = %r after %d cached requests, %s gives %.15g' % (n, m, r, float(x), qi, txt, ef), qi))
+                    break
+    if rf.tobytes() != before:
+        bad.append(('input-mutated zernike_radial', 'zernike_radial changed its argument r (order %d)' % case['n'], 0))
+    return bad, (reqs, vals)
+
+
+def check_high_orders(ctx, hz):
+    nhi = ctx.scale(40, 48)
+    lines, slots = [], []
+    for k in range(ctx.scale(14, 120)):
+        case = gen_high_case(ctx.rng, nhi)
+        bad, (reqs, vals) = run_high(hz, case)
+        seen = set()
+        for key, what, qi in bad:
+            if key in seen:
+                continue
+            seen.add(key)
+            # shrink: the failing request alone, then the history up to it
+            small = case
+            pos = [i for i, q in enumerate(reqs) if q[0] == case['n']]
+            for cand in (dict(case, ms=[reqs[qi][1]], two_orders=False, n=reqs[qi][0]),
+                         dict(case, ms=[m for (n_, m) in reqs[:qi + 1] if n_ == reqs[qi][0]], two_orders=False, n=reqs[qi][0])):
+                if any(k2 == key for k2, _, _ in run_high(hz, cand)[0]):
+                    small = cand; break
+            ctx.violation(key, what, small)
+        ctx.count('high-order-histories'); ctx.count('high-order:n=%d' % case['n']); ctx.count('high-order-requests', len(reqs))
+        ctx.count('high-order:two-orders=%r' % case['two_orders'])
+        for (n, m), v in zip(reqs, vals):
+            ctx.case({'what': 'high', 'n': n, 'm': m}, ('high', n, m))
+            for j, r in enumerate(case['r']):
+                slots.append((len(lines), n, m, r, None if v is None else float(v[j])))
+                lines.append('C13 radial %d %d %s' % (n, abs(m), r))
+    out = ctx.model(lines)
+    for idx, n, m, r, v in slots:
+        if not out[idx].startswith('ok '):
+            raise MachineryError('model answered %r to %r' % (out[idx][:60], lines[idx]))
+        ctx.traces_validated += 1
+        q = Fraction(out[idx][3:])
+        if Fraction(r) == 1 and q != 1:
+            ctx.disagree('C13 radial high', {'n': n, 'm': m, 'r': r, 'model': str(q), 'theorem radial_at_one': '1'})
+        mv = to_float(q)
+        if v is None or np.isnan(v) or abs(v - mv) > TOL * max(1.0, abs(mv)):
+            ctx.disagree('C13 radial high', {'n': n, 'm': m, 'r': r, 'impl': repr(v), 'model': str(q)[:80]})
+
 # =============================================================================================
 
 def run(ctx):
@@ -1775,6 +1909,7 @@ def run(ctx):
                 '(E) the radial polynomial as a polynomial: zernike_radial run on the symbolic argument numpy Polynomial([0,1]) (all 121 pairs n <= 20, any request order, with/without one shared cache) against the factorial coefficients (oracle) and the coefficient lists of the model recursion (radialPoly); peval of the model list = radialEval = the code at sampled radii (0, 1, 2^-20, k/256); the Gram matrix of zernike_radial under 32-point Gauss-Legendre quadrature with weight r against delta/(2(n+1)) (oracle) and the exact integral of the model product polynomial (pint01). '
                 '(F) make_zernike_basis(num, D, grid, starting_mode, ansi, radial_cutoff, use_cache) on unstructured and separated polar grids (all 231 modes directed, random windows of indices, every combination of the keyword defaults): every column against the definition of the mode the documented ordering names (oracle) and against the column of the array-level model basisA (C13 abasis), grid coordinates byte-identical afterwards. '
                 '(G) the Field generators of make_zernike_basis(num, D, None, …) called in random order (some repeatedly) on two polar grids (half of the time of equal size but different points), each call against the definition on the grid it was handed (oracle) and against the model runGensA without a shared cache (C13 gens own). '
+                '(H) beyond the table: zernike_radial for orders 21..40 (thorough 48) in cached request histories (|m| decreasing / increasing / random, repeated requests, two radial orders interleaved in one cache) at r = 0, 1, 2^-12 and random dyadic radii up to 1.125, against the factorial definition in exact integers, the unit-circle identity R_n^m(1) = 1 and the centre value (oracle) and against radialEval of the model (C13 radial) — the theorems radial_matches_definition / radial_at_one / radial_at_zero hold for every order. Rim: points exactly on 2r = D (polar grids: always; regular pupil grids: Pythagorean pixels) carry exactly 0 with the cut-off (rim-not-outside). '
                 'Non-trivial = a mode evaluation on a non-empty grid; distinct by (grid kind, n, m, cutoff, cache, centre present, rim present).')
     ctx.assumptions += ['np.hypot / arctan2 / cos / sin / pow are accurate to a few ulp',
                         'float sqrt in the index maps is tied only on the exhaustively compared range',
@@ -1796,7 +1931,9 @@ def run(ctx):
     check_abasis(ctx, hz)
     ctx.extra['time_abasis_s'] = round(time.time() - t, 1); t = time.time()
     check_gens(ctx, hz)
-    ctx.extra['time_gens_s'] = round(time.time() - t, 1)
+    ctx.extra['time_gens_s'] = round(time.time() - t, 1); t = time.time()
+    check_high_orders(ctx, hz)
+    ctx.extra['time_high_orders_s'] = round(time.time() - t, 1)
     by = {}
     for d in ctx.disagreements:
         by[d['stream']] = by.get(d['stream'], 0) + 1
@@ -1846,6 +1983,11 @@ def replay(ctx, case):
     elif what == 'noll-injective':
         seen = set(hz.noll_to_zernike(i) for i in range(1, case['N'] + 1))
         ok = len(seen) == case['N']
+    elif what == 'high':
+        bad = run_high(hz, case)[0]
+        for key, what_, _ in bad[:5]:
+            print('  fails:', key, '-', what_)
+        ok = not bad
     elif what == 'gens':
         bad = run_gens(hz, case)[0]
         for key, what_, _ in bad[:5]:
@@ -1881,7 +2023,7 @@ def replay(ctx, case):
                 print('  fails:', v['key'], '-', v['what']); ok = False
     else:
         grid, pts, real, fresh, outside, amb, refs = observe(hz, case)
-        bad = judge(case, real, fresh, refs, amb, len(pts[1]))
+        bad = judge(case, real, fresh, refs, amb, len(pts[1]), rim_mask(pts, case['D']))
         for key, what_, _ in bad[:5]:
             print('  fails:', key, '-', what_)
         ok = not bad
